@@ -507,6 +507,32 @@ def run(ctx: Ctx):
             k["negative_zero_text"] = True
         return k
 
+    # determinism across processes and histories: a sample of the LocalDate events is formatted again in a fresh interpreter, in the
+    # reverse order (culture data is cached lazily and process-wide: era names, month names, expanded standard patterns)
+    import json as _json
+    import os as _os
+    import subprocess as _sp
+    import sys as _sys
+
+    cand = [e for p in parts for e in p if e["type"] == "LocalDate" and not e["roundtrip_builtin"] and "text" in e and e["value"].get("cal") == "ISO"
+            and "yymax" in e["value"] and e["value"]["yymax"] == 30]
+    rnd2 = random.Random(ctx.seed + 77)
+    cand = rnd2.sample(cand, min(len(cand), 400 if q else 4000))
+    triples = [[e["culture"], e["pattern"][len("standard:"):] if e["pattern"].startswith("standard:") else e["pattern"],
+                e["value"]["y"], e["value"]["m"], e["value"]["d"]] for e in cand]
+    try:
+        proc = _sp.run([_sys.executable, "-m", "harness.drivers.fresh_format"], input=_json.dumps(list(reversed(triples))), capture_output=True,
+                       text=True, timeout=600, env=dict(_os.environ))
+        there = list(reversed(_json.loads(proc.stdout)))
+    except Exception:  # noqa: BLE001
+        there = []
+    det = []
+    for e, b in zip(cand, there):
+        if isinstance(b, list):
+            det.append({"op": "det", "type": "LocalDate", "pattern": e["pattern"], "culture": e["culture"], "roundtrip_builtin": False, "value": e["value"],
+                        "text": e["text"], "elsewhere": b})
+    ctx.notes["formatted_again_in_a_fresh_interpreter"] = len(det)
+    parts.append(det)
     ctx.validate("Trace_Text", TRACE_CFG, None, shards=parts, key_of=key_of, ntraces=len(pats))
     ctx.rule = ("random custom patterns (1-7 tokens: padded/unpadded numerics, fractions f/F with . and ; 12/24-hour with am/pm, text months/"
                 "days, eras, calendar, quoted and escaped literals) and the built-in round-trip/ISO patterns of 7 types, in the invariant "
